@@ -9,7 +9,7 @@ expect() {
     revert-F5) echo "C05 C06";; revert-F6) echo "C06";; revert-F7) echo "C13";; revert-F8) echo "C19";;
     m02*) echo "C07";; m03*) echo "C07";; m04*) echo "C04 C05";; m05*) echo "C08";; m07*) echo "C18";; m08*) echo "C18";;
     m09*) echo "C17";; m11*) echo "C19";; m12*) echo "C20";; m13*) echo "C09";; m14*) echo "C12";; m15*) echo "C15";;
-    m16*) echo "C09 C10";; m17*) echo "C09";; m18*|m19*) echo "C13";; m20*|m21*) echo "C19";; m22*|m23*) echo "C20";; m24*) echo "C09";;
+    m16*) echo "C09 C10";; m17*) echo "C09";; m18*|m19*) echo "C13";; m20*|m21*) echo "C19";; m22*|m23*) echo "C20";; m24*) echo "C09 C07";;
     *) echo "";;
   esac
 }
